@@ -21,7 +21,7 @@ Inductive tag := TSetup (i : nat) | TPub (k j : nat) | TSkip (k j : nat) | TStep
 
 (* subscriber thread state.  pc: 0 idle, 1 after the first await_ready=false of a blocking call, 2 after await_ready=false
    (next step: subscribe), 3 advanced (next step: await_resume), 4 parked, 5 done, 6 blocked thread woken (next: leave the
-   wait), 7 a value was received (next step: the action).  st_act: 0 none, 1 publish, 2 close, 3 kick the next subscriber,
+   wait), 7 a value was received (next step: the action), 8 awaiter taken out of the registration, resumption pending.  st_act: 0 none, 1 publish, 2 close, 3 kick the next subscriber,
    4 kick itself, 5 destroy itself *)
 Record sthr := mkSt { st_mode : Z; st_style : Z; st_cnt : nat; st_pc : Z; st_aw : Z; st_act : Z }.
 
@@ -83,10 +83,21 @@ Definition stack_of (ts : tstate) (t : nat) : list item := nth t (ts_stacks ts) 
 
 (* a wake-up list: every parked subscriber whose awaiter is in it is woken; coroutines are returned (in list order) to
    be run by the waking thread *)
-Fixpoint find_aw (l : list sthr) (a : Z) (i : nat) : option nat :=
+Fixpoint find_aw (p : Z) (l : list sthr) (a : Z) (i : nat) : option nat :=
   match l with
   | [] => None
-  | x :: t => if (st_pc x =? 4) && (st_aw x =? a) then Some i else find_aw t a (S i)
+  | x :: t => if (st_pc x =? p) && (st_aw x =? a) then Some i else find_aw p t a (S i)
+  end.
+(* the critical section that produced wake-up list w removed those awaiters from the registrations: from now on their
+   subscribers are no longer "parked" (pc 8: resumption pending) although they have not been resumed yet *)
+Fixpoint mark_pending (subs : list sthr) (w : list Z) : list sthr :=
+  match w with
+  | [] => subs
+  | a :: t => match find_aw 4 subs a 0 with
+              | Some i => let x := sget subs i in
+                          mark_pending (set_nth subs i (mkSt (st_mode x) (st_style x) (st_cnt x) 8 (st_aw x) (st_act x))) t
+              | None => mark_pending subs t
+              end
   end.
 (* resuming the awaiters of a wake-up list is not a scheduling point, but resuming a coroutine runs it up to its next
    lock acquisition, which is one.  cocls resumes coroutines through the thread-local coro_queue:
@@ -99,7 +110,7 @@ Fixpoint wake_prefix (subs : list sthr) (w : list Z) : list sthr * option nat * 
   match w with
   | [] => (subs, None, [])
   | a :: t =>
-      match find_aw subs a 0 with
+      match find_aw 8 subs a 0 with
       | Some i => let x := sget subs i in
                   if st_style x =? 1
                   then (set_nth subs i (mkSt (st_mode x) (st_style x) (st_cnt x) 3 (st_aw x) (st_act x)), Some i, t)
@@ -111,7 +122,7 @@ Fixpoint wake_all (subs : list sthr) (w : list Z) : list sthr * list nat :=
   match w with
   | [] => (subs, [])
   | a :: t =>
-      match find_aw subs a 0 with
+      match find_aw 8 subs a 0 with
       | Some i => let x := sget subs i in
                   let coro := st_style x =? 1 in
                   let r := wake_all (set_nth subs i (mkSt (st_mode x) (st_style x) (st_cnt x) (if coro then 3 else 6)
@@ -177,7 +188,7 @@ Definition stays (x : sthr) : bool :=
 Definition runnable (ts : tstate) (st : list item) : bool :=
   match st with
   | [] => false
-  | ISub i :: _ => negb (st_pc (sget (ts_subs ts) i) =? 4)
+  | ISub i :: _ => negb (st_pc (sget (ts_subs ts) i) =? 4) && negb (st_pc (sget (ts_subs ts) i) =? 8)
   | _ => true
   end.
 
@@ -218,8 +229,9 @@ Definition tstep (sp : list sthr) (pa pb : list op) (e : tst) (ts : tstate) (t :
                                            then set_nth (ts_subs ts) s (with_pc (sget (ts_subs ts) s) 5) else ts_subs ts
                    | _, _ => ts_subs ts
                    end in
-      let w := settle subs0 (IWake (o_wk (snd r)) :: (if relocks e x (snd r) then [IRelock] else [])
-                                                   ++ pub_rest prog k j ++ rest) in
+      let w := settle (mark_pending subs0 (o_wk (snd r)))
+                      (IWake (o_wk (snd r)) :: (if relocks e x (snd r) then [IRelock] else [])
+                                             ++ pub_rest prog k j ++ rest) in
       (fst r, mkTs (match k with O => S j | _ => ts_pa ts end) (match k with O => ts_pb ts | _ => S j end)
                    (fst w) (set_nth (ts_stacks ts) t (snd w)), Some (tg, snd r))
   | ISub i :: rest =>
@@ -229,7 +241,7 @@ Definition tstep (sp : list sthr) (pa pb : list op) (e : tst) (ts : tstate) (t :
         let ao := op_of_tag sp pa pb (TAct i) in
         let r := step e ao in
         let x' := match ao with OLeave _ => with_pc x 5 | _ => dec_cnt x end in
-        let w := settle (set_nth (ts_subs ts) i x')
+        let w := settle (mark_pending (set_nth (ts_subs ts) i x') (o_wk (snd r)))
                         (IWake (o_wk (snd r)) :: (if relocks e ao (snd r) then [IRelock] else [])
                                                ++ (if stays x' then ISub i :: rest else rest)) in
         (fst r, mkTs (ts_pa ts) (ts_pb ts) (fst w) (set_nth (ts_stacks ts) t (snd w)), Some (TAct i, snd r))
